@@ -50,6 +50,28 @@ let init () =
          let rs = Stdlib.List.map (fun o -> match o with Some f -> hex_of_bytes f | None -> "nil") (run_calls t cs) in
          "ok r=" ^ String.concat "," rs)
     | _ -> "bad-args");
+  (* simshare <ver> <phone> <k:call> ... : several Terminals made from one Option value: independent states *)
+  register "simshare" (fun a -> match a with
+    | ver :: phone :: calls ->
+      (match term ver phone with
+       | None -> "bad-header"
+       | Some t0 ->
+         let terms : (string, sim) Hashtbl.t = Hashtbl.create 4 in
+         let rs = Stdlib.List.map (fun kc ->
+           let i = String.index kc ':' in
+           let k = String.sub kc 0 i and c = String.sub kc (i + 1) (String.length kc - i - 1) in
+           let t = (match Hashtbl.find_opt terms k with Some t -> t | None -> t0) in
+           let r = String.sub c 1 (String.length c - 1) in
+           let call =
+             if c.[0] = 'D' then CDefault (n_of_int (int_of_string r))
+             else match String.split_on_char ':' r with
+               | [cmd; body] -> CCustom (n_of_int (int_of_string cmd), bytes_of_hex body)
+               | _ -> failwith "call" in
+           let (t', o) = do_call t call in
+           Hashtbl.replace terms k t';
+           match o with Some f -> hex_of_bytes f | None -> "nil") calls in
+         "ok r=" ^ String.concat "," rs)
+    | _ -> "bad-args");
   register "simseq" (fun a -> match a with
     | [ver; phone; count; cmd] ->
       (match term ver phone with
